@@ -1,5 +1,6 @@
 """C15 — every metadata codec is an exact inverse pair over its whole domain."""
 from vlib.flow import Check
+from props import _clicodec
 
 META = {
     "level": "proof",
@@ -16,5 +17,6 @@ def run(tier, seed, replay=None):
     c.assumptions = ["user/group names longer than 255 bytes are outside the fPRM format's domain (length is one byte)"]
     c.proofs()
     c.correspondence("codec", ["codec"])
+    _clicodec.step(c)
     return c.finish("proof", ["Coq 8.16.1 kernel and VM", "ExtrOcamlBasic extraction + modelrun/driver.ml",
-                              "harness/src/bin/codec.rs", "lib/src/verif_hooks.rs wrappers"])
+                              "harness/src/bin/codec.rs", "lib/src/verif_hooks.rs wrappers"] + _clicodec.TRUSTED)
